@@ -15,6 +15,14 @@ Definition replace_head (h h' : nat) (l : list nat) := map (fun x => if Nat.eqb 
 
 Definition mkpack (id au : N) (ops : list N) (e c : N) := {| p_id := id; p_author := au; p_ops := ops; p_edit := e; p_create := c |}.
 
+Fixpoint maxl (l : list N) : N := match l with [] => 1 | x :: t => N.max x (maxl t) end.
+Lemma maxl_ge l x : In x l -> x <= maxl l.
+Proof. induction l as [|y t IH]; cbn [maxl In]; [intros []|]. intros [->|H]; [apply N.le_max_l|].
+  specialize (IH H). pose proof (N.le_max_r y (maxl t)). lia. Qed.
+Lemma maxl_le l b : 1 <= b -> (forall x, In x l -> x <= b) -> maxl l <= b.
+Proof. intros H1. induction l as [|y t IH]; cbn [maxl]; intros H; [exact H1|]. assert (y <= b) by (apply H; now left).
+  assert (maxl t <= b) by (apply IH; intros x Hx; apply H; now right). apply N.max_lub; assumption. Qed.
+
 Inductive action :=
 | ACreate (r : nat) (id au : N) (ops : list N)
 | AEdit (r : nat) (h : nat) (id au : N) (ops : list N)
@@ -22,7 +30,8 @@ Inductive action :=
 | AFF (r : nat) (h t : nat)                 (* scenario 4 *)
 | AMerge (r : nat) (h t : nat) (id au : N)  (* scenario 5 *)
 | AWitness (r : nat) (t : nat)              (* a read of the history headed by t: clocks are witnessed, refs untouched *)
-| ARemove (r : nat) (h : nat).              (* the local ref of h is deleted *)
+| ARemove (r : nat) (h : nat)               (* the local ref of h is deleted *)
+| AResetClock (r : nat).                    (* clock files lost; reopened with the clock loaders: rebuilt from the local refs *)
 
 Definition step (w : world) (a : action) : option world :=
   let s := st w in let n := length s in
@@ -72,6 +81,12 @@ Definition step (w : world) (a : action) : option world :=
     match nth_error (reps w) r with None => None | Some rp =>
       Some {| st := s; eidf := eidf w;
               reps := set_nth r {| heads := filter (fun x => negb (Nat.eqb x h)) (heads rp); clk := clk rp; cclk := cclk rp |} (reps w);
+              budget := budget w |} end
+  | AResetClock r =>
+    match nth_error (reps w) r with None => None | Some rp =>
+      Some {| st := s; eidf := eidf w;
+              reps := set_nth r {| heads := heads rp; clk := maxl (map (edit_of s) (heads rp));
+                                   cclk := maxl (map (fun h => create_of s (eidf w h)) (heads rp)) |} (reps w);
               budget := budget w |} end
   end.
 
@@ -140,7 +155,7 @@ Ltac old_head Hh2 :=
 
 Theorem inv_step w a w' : inv w -> budget w + 2 <= jump_limit -> step w a = Some w' -> inv w'.
 Proof.
-  intros (G & Hh & Hb & Hc) Bud Hs. destruct a as [r id au ops|r h id au ops|r t|r h t|r h t id au|r t|r h]; cbn [step] in Hs;
+  intros (G & Hh & Hb & Hc) Bud Hs. destruct a as [r id au ops|r h id au ops|r t|r h t|r h t id au|r t|r h|r]; cbn [step] in Hs;
   destruct (nth_error (reps w) r) as [rp|] eqn:Er; try discriminate; pose proof (nth_error_In _ _ Er) as Hrp;
   pose proof (Hc rp Hrp) as Hcr.
   - (* create *)
@@ -210,6 +225,13 @@ Proof.
     + intros rp' x Hin Hx. apply In_set_nth in Hin as [->|Hin]; cbn [heads clk] in *; [|now apply Hh].
       apply filter_In in Hx as [Hx _]. now apply Hh.
     + intros rp' Hin. apply In_set_nth in Hin as [->|Hin]; cbn [clk]; [|now apply Hc]. exact Hcr.
+  - (* clocks rebuilt from the local refs *)
+    inversion Hs; subst; clear Hs. unfold inv; cbn [st eidf reps budget]. split; [exact G|split; [|split; [exact Hb|]]].
+    + intros rp' x Hin Hx. apply In_set_nth in Hin as [->|Hin]; cbn [heads clk] in *; [|now apply Hh].
+      destruct (Hh rp x Hrp Hx) as [L _]. split; [exact L|]. apply maxl_ge. apply in_map. exact Hx.
+    + intros rp' Hin. apply In_set_nth in Hin as [->|Hin]; cbn [clk]; [|now apply Hc].
+      apply maxl_le; [lia|]. intros x Hx. apply in_map_iff in Hx as (h & <- & Hh'). destruct (Hh rp h Hrp Hh') as [L _].
+      exact (Hb h L).
 Qed.
 Print Assumptions inv_step.
 
